@@ -591,6 +591,7 @@ class CrashWorld(World):
             # the flush attempt failed and the call raised: its write stays in the open transaction, nothing
             # was acknowledged, the store must carry on (and must not believe it has just flushed)
             self.probes["fault_commit_failed"] += 1
+            self.restarted = True  # from here on a rejected valid operation is a failure to make progress after a fault
             m.returned(False, False)
             pt = self.crash_point("return")
             pt["t_issue"] = t_issue
@@ -606,7 +607,7 @@ class CrashWorld(World):
             out["exc"] = None
         if out["exc"] is not None:
             if self.restarted:
-                raise Violation("progress_after_restart", "after a crash and restart the store rejected a valid %s: %r" % (self.cur_op, out["exc"]), {"op": self.cur_op})
+                raise Violation("progress_after_restart", "after an injected fault (crash and restart, or a failed flush) the store rejected a valid %s: %r" % (self.cur_op, out["exc"]), {"op": self.cur_op})
             raise Abandon("valid %s raised %r" % (self.cur_op, out["exc"]), "C02")
         m.returned(bucket_level, self.autocommit)
         if self.diagnose and self.live_hash() != m.hashes[ORDERS[0]][m.n]:
